@@ -663,13 +663,13 @@ class C01(fw.Prop):
         return [{"named": n} for n in NAMED]
 
     def generate(self, rng, tier, ctx):
-        n = 150 if tier == "quick" else 1500
+        n = 300 if tier == "quick" else 3500
         cases = []
         roots = [None, None, None, "dfg", "module", "func", "loop", "cond", "cfg"]
         for i in range(n):
             cases.append({"seed": rng.randrange(1 << 30), "root": roots[i % len(roots)]})
         # programs inside the builder model (model/Builder.v): the tie for the theorems
-        for i in range(120 if tier == "quick" else 1200):
+        for i in range(250 if tier == "quick" else 2500):
             cases.append({"seed": rng.randrange(1 << 30), "root": "dfg", "allow": ["nested", "order", "md"],
                           "size": rng.choice([5, 8, 10, 14]), "depth": rng.choice([2, 3, 4, 5])})
         return cases
